@@ -109,14 +109,19 @@ inductive ParseRes
   | bad
   | overflow         -- `NewIntFromBigInt() out of bound` (D9)
 
-/-- `ParsePricing` for text that already passed the schema: base = integer part in `stake` -/
+/-- `ParsePricing` for text that already passed the schema: base = integer part in `stake`.
+    A price without a decimal point goes through `sdk.ParseCoin` (amounts of more than 255
+    bits are rejected); one with a decimal point goes through `sdk.ParseDecCoin`, which
+    accepts any size, and `ToMinCoin`'s `TruncateInt` then panics beyond 255 bits (D9). -/
 def parsePricing (t : PricingText) : ParseRes :=
   let (ip, fp, den) := splitPrice t.price
   let n := digitsToNat ip
-  if fp.length > 18 then .bad
-  else if String.ofList den ≠ "stake" then .bad
+  if String.ofList den ≠ "stake" then .bad
+  else if priceHasDot t.price then
+    if fp.length > 18 then .bad
+    else if n < intLimit then .ok { base := n, promT := t.promT, promV := t.promV }
+    else .overflow
   else if n < intLimit then .ok { base := n, promT := t.promT, promV := t.promV }
-  else if (n * decUnit + digitsToNat (fp ++ List.replicate (18 - fp.length) '0')) < 2 ^ 315 then .overflow
   else .bad
 
 /-- schema-level validity of a pricing text (`ValidateBindingPricing`) -/
